@@ -156,6 +156,10 @@ func init() {
 			rn := stride.Run(core.Config{Tags: "noasm"}, core.Pkgs("./internal/asm/f64", "./internal/asm/f32", "./internal/asm/c128", "./internal/asm/c64"))
 			rn.Floor("index_sites", 100)
 			res.Merge(rn)
+			sb := stride.RunStepBound(def, core.Pkgs(blasPkgs...))
+			sb.Floor("loops_stepping_by_an_increment", 5)
+			res.Merge(sb)
+			res.Merge(stride.RunStepBound(core.Config{Tags: "noasm"}, core.Pkgs("./internal/asm/f64", "./internal/asm/f32")))
 			li := loopidx.Run(def, core.Pkgs(blasPkgs...))
 			li.Floor("counting_loops_with_element_stores", 300)
 			res.Merge(li)
@@ -374,8 +378,12 @@ func init() {
 			r.Floor("index_sites", 200)
 			r.Floor("literal_pairs", 40)
 			res.Merge(r)
+			res.Merge(stride.RunStepBound(def, core.Pkgs("./mat")))
 			res.Merge(loopidx.Run(def, core.Pkgs("./mat")))
 			res.Merge(flagx.Run(def, core.Pkgs("./mat")))
+			bc := flagx.RunBandCol(def, core.Pkgs("./mat", "./blas/gonum", "./lapack/gonum"))
+			bc.Floor("band_row_extents_with_distinct_row_and_column_counts", 6)
+			res.Merge(bc)
 			nr := nilrecv.Run(def, core.Pkgs("./mat"))
 			nr.Floor("pointer_args", 800)
 			res.Merge(nr)
@@ -444,6 +452,7 @@ func init() {
 			for _, cfg := range []core.Config{{}, {Tags: "noasm"}} {
 				r := stride.Run(cfg, core.Pkgs(asm...))
 				res.Merge(r)
+				res.Merge(stride.RunStepBound(cfg, core.Pkgs(asm...)))
 				pu := paramuse.Run(cfg, core.Pkgs(append([]string{"./floats/...", "./cmplxs/...", "./internal/math32", "./internal/cmplx64"}, asm...)...))
 				pu.Floor("parameters", 300)
 				res.Merge(pu)
@@ -885,6 +894,10 @@ func dump(argv []string) {
 		res = overlap.RunExtent(def)
 	case "doublepass":
 		res = matargs.RunDoublePass(def)
+	case "bandcol":
+		res = flagx.RunBandCol(def, core.Pkgs(argv[1:]...))
+	case "stepbound":
+		res = stride.RunStepBound(def, core.Pkgs(argv[1:]...))
 	case "workquery":
 		res = flagx.RunWorkQuery(def, core.Pkgs(argv[1:]...))
 	case "betascale":
